@@ -1025,6 +1025,11 @@ func (m *StateMachine) handleProposalViewUpdate(
 			// after sending the choose request.
 			clear(rlc.PrevConsideredHashes)
 
+			// We skipped straight to awaiting precommits,
+			// so nothing else will ask the consensus strategy for our precommit in this round.
+			// Ask as soon as the prevote we just requested has been recorded.
+			rlc.PrecommitDueAfterPrevote = true
+
 			return
 		}
 
@@ -1248,6 +1253,25 @@ func (m *StateMachine) recordPrevote(
 		rlc.CancelTimer()
 		rlc.CancelTimer = nil
 		rlc.StepTimer = nil
+	}
+
+	if rlc.PrecommitDueAfterPrevote {
+		rlc.PrecommitDueAfterPrevote = false
+
+		// The prevote quorum was visible before we had prevoted,
+		// so the precommit decision has been due since then.
+		if rlc.S == tsi.StepAwaitingPrecommits && rlc.PrecommitHashCh != nil {
+			if !gchan.SendC(
+				ctx, m.log,
+				m.cm.DecidePrecommitRequests, tsi.DecidePrecommitRequest{
+					VS:     rlc.VRV.VoteSummary.Clone(),
+					Result: rlc.PrecommitHashCh,
+				},
+				"choosing precommit after recording the prevote that followed a majority prevote",
+			) {
+				return false
+			}
+		}
 	}
 
 	return true
